@@ -80,6 +80,10 @@ def jsonR (v k : Nat) : JSpec :=
      | 2 => Gen.AuditLog.jsonGroundingR
      | _ => [])
 
+/-- Does `JsonSerializer.Encode` convert the timestamp to UTC before formatting it with the layout
+whose zone designator is a literal "Z"? (T1: the conversions applied to `e.Timestamp`.) -/
+def jsonTimeUTC : Bool := Gen.AuditLog.jsonTimeWrite.contains "UTC"
+
 def widthOf (f : String) : Nat :=
   ((Gen.AuditLog.entryFields ++ Gen.AuditLog.logFields ++ Gen.AuditLog.groundingFields).lookup f).getD 0
 
